@@ -7,6 +7,7 @@ import Pdb.Model.IndexPage
 import Pdb.Model.Meta
 import Pdb.Model.Wal
 import Pdb.Model.Validate
+import Pdb.Model.ValueTable
 
 open Pdb
 
@@ -99,6 +100,7 @@ def p1Step (p : P1) (ws : List String) : P1 × String :=
 
 structure State where
   p1 : Option P1 := none
+  c06 : Pdb.ValueTable.State := {}
 
 def stepLine (s : State) (line : String) : State × String :=
   let ws := (line.trimAscii.toString.splitOn " ").filter (· ≠ "")
@@ -115,6 +117,10 @@ def stepLine (s : State) (line : String) : State × String :=
   | "c17" :: rest => (s, Pdb.C17.driverLine rest)
   | "c13" :: rest => (s, Pdb.Wal.driverLine rest)
   | "c08" :: rest => (s, Pdb.Validate.driverLine rest)
+  | "c06" :: "t" :: rest =>
+    let (st', out) := Pdb.ValueTable.step s.c06 rest
+    ({ s with c06 := st' }, out)
+  | "c06" :: rest => (s, Pdb.ValueTable.driverLine rest)
   | [] => (s, "")
   | _ => (s, "bad-op")
 
